@@ -21,7 +21,12 @@ impl StateMachine<'_> {
             // Print the "Binary files" line verbatim, if there was no "diff" line, or it
             // listed different files but was not followed by header minus and plus lines.
             // This can happen in output of standalone diff or git diff --no-index.
-            if self.minus_file.is_empty() && self.plus_file.is_empty() {
+            // Output of standalone diff has no "diff" line in front of it either when it follows
+            // another file: then the names still are those of the previous file.
+            if (self.minus_file.is_empty() && self.plus_file.is_empty())
+                || self.source == Source::DiffUnified
+            {
+                self.painter.paint_buffered_minus_and_plus_lines();
                 self.emit_line_unchanged()?;
                 self.handled_diff_header_header_line_file_pair
                     .clone_from(&self.current_file_pair);
